@@ -117,7 +117,11 @@ def run(tier, seed):
                rule="random FGG specs (2/3 non-recursive, 1/3 recursive) x %d random presentations each (rule/node/edge order, label-table order, names, id style, domain-value permutations with factor axes) x semiring/method rotating; each presentation's sum_products mapped back and judged against the canonical grammar; distinct_nontrivial = distinct canonical specs (all have >= 1 rule and are presented >= %d ways)" % (k_pres, k_pres),
                kernel_reevaluated=nk,
                samples=[(nonrec_meta["real"] or rec_meta["real"] or [None])[0]],
-               open_items=["C12_spec_perm for node-position permutations, label renaming and domain-value permutations (see Props/C12.v for what is proved)"])
+               open_items=[
+                   "C12_model_perm beyond the Kleene iterates for recursive grammars: C12_presentation holds for every iterate k of any grammar, but its composition with C02 (least fixed point), C09 (elimination order of the linear/Newton solves), C04 (weight of the Viterbi derivation) and C03 (gradients) is not stated as Coq theorems of C12 (see notes/C12P.md)",
+                   "C12_scc_order_irrelevant covers singleton non-recursive components only (sum_products_nonrec); order irrelevance for components solved iteratively is open",
+                   "C12_model_presentation assumes wf_grammar of the presented grammar (the relation `relabelled` deliberately leaves unused table positions of the presentation unconstrained); node/edge ids and label names are below the positional model (covered by the metamorphic runs only)",
+                   "the harness transform gen.present is trusted to be an instance of the Coq relation `presents` (mirrored by relabel_grammar / permute_nodes / Permutation, not checked per generated case)"])
     return cov, violations
 
 def replay(path):
@@ -126,7 +130,7 @@ def replay(path):
 
 MANIFEST = dict(
     level="proof",
-    text="Coq: the definition of the sum-product (sum over derivation trees; Kleene iterates) is invariant under permuting the rule list (and further presentation changes as listed in Props/C12.v), in every commutative semiring, and C01/C02 tie the code's result to that definition. Metamorphic correspondence: several random presentations of each generated FGG (rule/node/edge order, label-table order, names, id style, domain-value permutations) are run through sum_products / viterbi and every result, mapped back, is judged in Coq against the canonical grammar's model.",
+    text="Coq: the definition of the sum-product (sum over derivation trees; Kleene iterates) is invariant under permuting the rule list, the edge list and the node numbering of every rule, and equivariant under renumbering edge/node labels and permuting the values of every domain together with the factor axes (each separately and composed: C12_presentation; carried to tree_sum, to the sum over all derivations of non-recursive grammars and to the code-shaped driver with any dependency-respecting component order: C12_model_presentation, C12_scc_order_irrelevant), in every commutative semiring, and C01/C02 tie the code's result to that definition. Metamorphic correspondence: several random presentations of each generated FGG (rule/node/edge order, label-table order, names, id style, domain-value permutations) are run through sum_products / viterbi and every result, mapped back, is judged in Coq against the canonical grammar's model.",
     note="Trusted: Coq kernel, extraction cross-checked by vm_compute, the harness's presentation transform and back-mapping; Python hash-order variation is induced by random label names within one interpreter.",
     technique="Coq invariance theorems + metamorphic model/implementation correspondence",
     design_ref="DESIGN.md section 6, C12")
